@@ -431,7 +431,7 @@ fn one_point(rec: &Recorded, h: &History, i: usize, torn: Option<usize>, reuse: 
     }
 }
 
-pub fn run(torn_mode: bool, tier: &str, seed: u64, replay: Option<&str>, corpus_dir: &str, shard: Option<ShardArgs>) -> Report {
+pub fn run(torn_mode: bool, tier: &str, seed: u64, replay: Option<&str>, corpus_dir: &str, shard: Option<ShardArgs>, drv_path: &str) -> Report {
     crate::lsm::install_panic_hook();
     let comp = if torn_mode { "c16" } else { "c02" };
     let tag = comp;
@@ -478,6 +478,19 @@ pub fn run(torn_mode: bool, tier: &str, seed: u64, replay: Option<&str>, corpus_
         };
         let ops = rec.fs.oplog();
         let nops = ops.len();
+        if !torn_mode {
+            // the whole recorded stream against the Lean durability monitor
+            let mut drv = crate::drv::Drv::spawn(drv_path);
+            let (n, bad) = monitor(&rec.fs, &mut drv);
+            rep.add("c02.stream-operations-checked-by-the-monitor", n as u64);
+            rep.model_requests += drv.requests;
+            if n > 0 {
+                rep.count("c02.streams-monitored");
+            }
+            if let Some(what) = bad {
+                rep.fail("contract", "c02:operation-order-outside-the-verified-discipline", &what, &hline);
+            }
+        }
         let mut prng = Prng::new(seed ^ (j as u64) << 8);
         if !torn_mode {
             // every prefix for short streams, an even sample for long ones
@@ -530,4 +543,203 @@ pub fn run(torn_mode: bool, tier: &str, seed: u64, replay: Option<&str>, corpus_
         }
     }
     rep
+}
+
+// ---------------------------------------------------------------------------------------------
+// the recorded operation stream against the Lean durability monitor (`Rain/Durable.lean`)
+
+fn num_between(name: &str, pre: &str, suf: &str) -> Option<u64> {
+    name.strip_prefix(pre)?.strip_suffix(suf)?.parse().ok()
+}
+
+fn read_log_records(bytes: &[u8]) -> Vec<Vec<u8>> {
+    let scratch = SimFs::new();
+    scratch.write_file_raw(std::path::Path::new("/x"), bytes.to_vec());
+    match raindb::verif::log_read_all(scratch.dyn_fs(), std::path::Path::new("/x")) {
+        Ok((recs, _)) => recs,
+        Err(_) => vec![],
+    }
+}
+
+fn table_entries_of(bytes: &[u8]) -> Option<Vec<raindb::verif::Entry>> {
+    use raindb::fs::FileSystem;
+    let scratch = SimFs::new();
+    scratch.create_dir_all(std::path::Path::new("/t/data")).ok()?;
+    scratch.write_file_raw(std::path::Path::new("/t/data/1.rdb"), bytes.to_vec());
+    let opts = raindb::DbOptions { db_path: "/t".into(), filesystem_provider: scratch.dyn_fs(), ..raindb::DbOptions::default() };
+    let t = raindb::verif::table_open(&opts, 1).ok()?;
+    let d = t.dump().ok()?;
+    Some(d.blocks.into_iter().flat_map(|b| b.entries).collect())
+}
+
+/// translate the recorded stream into model operations (token, index in the operation log)
+pub fn model_stream(fs: &SimFs) -> Option<Vec<(String, usize)>> {
+    use std::collections::BTreeMap as Map;
+    let ops = fs.oplog();
+    if ops.len() > 2500 {
+        return None;
+    }
+    let mut files: Map<String, Vec<u8>> = Map::new();
+    let mut ino_path: Map<u64, String> = Map::new();
+    let mut nrecs: Map<String, usize> = Map::new();
+    let mut complete: std::collections::BTreeSet<String> = Default::default();
+    let mut out: Vec<(String, usize)> = vec![];
+    let mut budget: usize = 3_000_000;
+    for (i, op) in ops.iter().enumerate() {
+        match op {
+            FsOp::Create(p, ino, trunc) => {
+                let ps = p.to_string_lossy().to_string();
+                ino_path.insert(*ino, ps.clone());
+                let existed = files.contains_key(&ps);
+                if *trunc || !existed {
+                    files.insert(ps.clone(), vec![]);
+                    nrecs.insert(ps.clone(), 0);
+                    complete.remove(&ps);
+                }
+                let name = p.file_name().map(|n| n.to_string_lossy().to_string()).unwrap_or_default();
+                if let Some(n) = num_between(&name, "wal-", ".log") {
+                    out.push((if *trunc || !existed { format!("cw:{n}") } else { "no".into() }, i));
+                } else if let Some(m) = num_between(&name, "MANIFEST-", ".manifest") {
+                    out.push((if *trunc || !existed { format!("cm:{m}") } else { "no".into() }, i));
+                } else {
+                    out.push(("no".into(), i));
+                }
+            }
+            FsOp::Write(ino, off, data) => {
+                let Some(ps) = ino_path.get(ino).cloned() else {
+                    out.push(("no".into(), i));
+                    continue;
+                };
+                let f = files.entry(ps.clone()).or_default();
+                match off {
+                    None => f.extend_from_slice(data),
+                    Some(o) => {
+                        if f.len() < o + data.len() {
+                            f.resize(o + data.len(), 0);
+                        }
+                        f[*o..o + data.len()].copy_from_slice(data);
+                    }
+                }
+                let name = std::path::Path::new(&ps).file_name().map(|n| n.to_string_lossy().to_string()).unwrap_or_default();
+                if let Some(n) = num_between(&name, "wal-", ".log") {
+                    let recs = read_log_records(f);
+                    let before = *nrecs.get(&ps).unwrap_or(&0);
+                    let mut pushed = false;
+                    for r in recs.iter().skip(before) {
+                        let (start, bops) = raindb::verif::batch_decode(r).ok()?;
+                        let body = if bops.is_empty() {
+                            "_".to_string()
+                        } else {
+                            bops.iter().map(|(k, v)| match v { Some(v) => format!("{}={}", hex(k), hex(v)), None => format!("{}!", hex(k)) }).collect::<Vec<_>>().join(",")
+                        };
+                        budget = budget.saturating_sub(body.len());
+                        out.push((format!("aw:{n}:{start}:{body}"), i));
+                        pushed = true;
+                    }
+                    nrecs.insert(ps.clone(), recs.len().max(before));
+                    if !pushed {
+                        out.push(("no".into(), i));
+                    }
+                } else if let Some(m) = num_between(&name, "MANIFEST-", ".manifest") {
+                    let recs = read_log_records(f);
+                    let before = *nrecs.get(&ps).unwrap_or(&0);
+                    let mut pushed = false;
+                    for r in recs.iter().skip(before) {
+                        let e = raindb::verif::edit_decode(r).ok()?;
+                        let pairs = |v: Vec<(usize, u64)>| if v.is_empty() { "_".to_string() } else { v.iter().map(|(l, t)| format!("{l}.{t}")).collect::<Vec<_>>().join(",") };
+                        out.push((
+                            format!(
+                                "am:{m}:{}:{}:{}",
+                                e.wal_file_number.map_or("-".to_string(), |w| w.to_string()),
+                                pairs(e.new_files.iter().map(|(l, f)| (*l, f.number)).collect()),
+                                pairs(e.deleted_files.clone())
+                            ),
+                            i,
+                        ));
+                        pushed = true;
+                    }
+                    nrecs.insert(ps.clone(), recs.len().max(before));
+                    if !pushed {
+                        out.push(("no".into(), i));
+                    }
+                } else if let Some(t) = num_between(&name, "", ".rdb") {
+                    let magic = 1646u64.to_le_bytes();
+                    if !complete.contains(&ps) && f.len() >= 48 && f[f.len() - 8..] == magic {
+                        match table_entries_of(f) {
+                            Some(es) => {
+                                complete.insert(ps.clone());
+                                let body = if es.is_empty() { "_".to_string() } else { es.iter().map(|e| format!("{}/{}/{}/{}", hex(&e.0), e.1, if e.2 == 1 { "p" } else { "d" }, hex(&e.3))).collect::<Vec<_>>().join(",") };
+                                budget = budget.saturating_sub(body.len());
+                                out.push((format!("ct:{t}:{body}"), i));
+                            }
+                            None => out.push(("no".into(), i)),
+                        }
+                    } else {
+                        out.push(("no".into(), i));
+                    }
+                } else {
+                    out.push(("no".into(), i));
+                }
+            }
+            FsOp::Rename(a, b) => {
+                let (as_, bs) = (a.to_string_lossy().to_string(), b.to_string_lossy().to_string());
+                let content = files.remove(&as_).unwrap_or_default();
+                for v in ino_path.values_mut() {
+                    if *v == as_ {
+                        *v = bs.clone();
+                    }
+                }
+                files.insert(bs.clone(), content.clone());
+                if bs.ends_with("/CURRENT") {
+                    let txt = String::from_utf8_lossy(&content).trim().to_string();
+                    match num_between(&txt, "MANIFEST-", ".manifest") {
+                        Some(m) => out.push((format!("sc:{m}"), i)),
+                        None => return None,
+                    }
+                } else {
+                    out.push(("no".into(), i));
+                }
+            }
+            FsOp::Remove(p) => {
+                let ps = p.to_string_lossy().to_string();
+                files.remove(&ps);
+                complete.remove(&ps);
+                let name = p.file_name().map(|n| n.to_string_lossy().to_string()).unwrap_or_default();
+                if let Some(n) = num_between(&name, "wal-", ".log") {
+                    out.push((format!("rw:{n}"), i));
+                } else if let Some(m) = num_between(&name, "MANIFEST-", ".manifest") {
+                    out.push((format!("rm:{m}"), i));
+                } else if let Some(t) = num_between(&name, "", ".rdb") {
+                    out.push((format!("rt:{t}"), i));
+                } else {
+                    out.push(("no".into(), i));
+                }
+            }
+            _ => out.push(("no".into(), i)),
+        }
+        if budget == 0 {
+            return None;
+        }
+    }
+    Some(out)
+}
+
+/// run the stream through the model's monitor; returns (checked operations, failure)
+pub fn monitor(fs: &SimFs, drv: &mut crate::drv::Drv) -> (usize, Option<String>) {
+    let Some(stream) = model_stream(fs) else { return (0, None) };
+    let req = format!("dur.run {}", stream.iter().map(|x| x.0.as_str()).collect::<Vec<_>>().join(" "));
+    let ans = drv.ask(&req);
+    if ans == "no-model" {
+        return (0, None);
+    }
+    if ans.starts_with("ok ") {
+        return (stream.len(), None);
+    }
+    if let Some(rest) = ans.strip_prefix("bad ") {
+        let idx: usize = rest.split(' ').next().and_then(|x| x.parse().ok()).unwrap_or(0);
+        let oplog_idx = stream.get(idx).map(|x| x.1).unwrap_or(0);
+        let tok: String = stream.get(idx).map(|x| x.0.chars().take(120).collect()).unwrap_or_default();
+        return (idx, Some(format!("model operation #{idx} (filesystem operation {oplog_idx}: {tok}) is rejected by the durability monitor: {rest}")));
+    }
+    (0, Some(format!("the durability monitor could not process the stream: {}", ans.chars().take(200).collect::<String>())))
 }
